@@ -91,8 +91,15 @@ def yaml_inputs():
     return out
 
 
-def fix_cases(tier, rulesets_raw=("layout", "all"), rulesets_yaml=("all",), ops="WKME", group=16, yaml=True, raw=True):
+def fix_cases(tier, rulesets_raw=("layout", "all"), rulesets_yaml=("all",), ops="WKME", group=16, yaml=True, raw=True, rulesets_fixtures=()):
     out = []
+    # every dialect fixture up to the byte bound, fixed in its OWN dialect (dialect-specific token
+    # shapes: hive `a.b-c=d`, soql `LAST_N_WEEKS:5`, tsql `[a b]`, ...)
+    if rulesets_fixtures:
+        fx = corpus.fixtures(250 if tier == "quick" else 1000)
+        for rs in rulesets_fixtures:
+            for i in range(0, len(fx), 8):
+                out.append({"k": "fx", "rs": rs, "ids": [f[1] for f in fx[i : i + 8]]})
     if raw:
         ss = raw_strings(tier, ops)
         for rs in rulesets_raw:
@@ -107,6 +114,7 @@ def fix_cases(tier, rulesets_raw=("layout", "all"), rulesets_yaml=("all",), ops=
 
 
 _Y = {}
+_FX = {}
 
 
 def expand(case):
@@ -116,6 +124,13 @@ def expand(case):
         lnt = sq.linter(case["d"], "raw", rules=RULESETS[case["rs"]], configs=case.get("cfg"))
         for s in case["ss"]:
             yield {"k": "strs", "d": case["d"], "rs": case["rs"], "ss": [s], **({"cfg": case["cfg"]} if case.get("cfg") else {})}, lnt, s
+    elif k == "fx":
+        if not _FX:
+            for d, p, t in corpus.fixtures(10**9):
+                _FX[p] = (d, t)
+        for p in case["ids"]:
+            d, t = _FX[p]
+            yield {"k": "fx", "rs": case["rs"], "ids": [p]}, sq.linter(d, "raw", rules=RULESETS[case["rs"]]), t
     elif k == "yaml":
         if not _Y:
             for y in yaml_inputs():
